@@ -78,7 +78,7 @@ def scan(a, g1, g2):
 def response_exact(acc, dt, periods, xi):
     """Exact u, v (long double, (Q, N)) of u'' + 2 xi w u' + w^2 u = a(t), a piecewise linear, w = 2 pi / T: the propagators are
     the long-double matrix exponentials of pbt/ref/sdof.py (independent of the Nigam-Jennings closed forms), the time
-    stepping is scan().  Same quantity as ref.response(), which is validated against this in selftest."""
+    stepping is scan().  Same quantity as ref.response() (sample-by-sample loop); pbt/props/c03.py compares the two at import."""
     acc = np.asarray(acc, dtype=float).astype(LD)
     n = len(acc)
     periods = np.asarray(periods, dtype=float)
